@@ -30,9 +30,18 @@
 //	V12 Key of a key shortcut is the shortcut text ("@k") with IsKeyShortcut = true.
 //	V13 Rules that are switched off (nullable: false, const: false, optional: false, exclusiveMinimum: false)
 //	    still appear (the AST is taken before compilation).
+//	V8a An enum item comment is the text after `//` up to the end of the line with LEADING blanks removed;
+//	    trailing blanks are kept by the tree, so the generator writes none (left open, not demanded).
 //	V14 SchemaType precedence: enum > or > type rule (decoded value, e.g. "any", "email", "@t", "mixed",
 //	    "enum", "decimal") > precision ("decimal") > JSON kind of the example
 //	    (integer / float / string / boolean / null / object / array).
+//
+// Surface-syntax restrictions of the generator (scanner / loader rules of the unchanged tree, not AST matters):
+// a node that carries an annotation stands alone on its line (an object's `{` and its first property never
+// share a line); a bare rule name may be followed by spaces but not by a tab; a note never contains `#` (it
+// starts a user comment that cuts the note); numbers have no exponent; inside an `or` rule-set the rule name
+// `enum` is recognised only when written bare and immediately followed by `:` (`{"enum": [1]}` and
+// `{enum : [1]}` inside `or` give error 805 although both are fine at the top level of an annotation).
 package c16
 
 import (
